@@ -19,9 +19,14 @@ struct Case {
     placeholders: bool,
     /// the first derived level re-declares slot `v` with another convention than the base
     derived_differs: bool,
+    /// convention of the functions the derived levels add (quick: the same as `cc_v`)
+    cc_d: Option<&'static str>,
+    /// which level's type the address-bound impl function belongs to
+    impl_level: usize,
 }
 
 fn cases() -> Vec<Case> {
+    let thorough = std::env::var("VERIF_TIER").as_deref() == Ok("thorough");
     let mut out = vec![];
     for cc_v in CCS {
         for recv_v in [Recv::None, Recv::Const, Recv::Mut] {
@@ -29,7 +34,16 @@ fn cases() -> Vec<Case> {
                 for recv_impl in [Recv::None, Recv::Const, Recv::Mut] {
                     for depth in 1..=3 {
                         for placeholders in [false, true] {
-                            out.push(Case { cc_v: *cc_v, recv_v, cc_impl: *cc_impl, recv_impl, depth, placeholders, derived_differs: false });
+                            out.push(Case { cc_v: *cc_v, recv_v, cc_impl: *cc_impl, recv_impl, depth, placeholders, derived_differs: false, cc_d: *cc_v, impl_level: 0 });
+                            if thorough && depth >= 2 {
+                                // the derived levels' own functions carry an independent convention, and the
+                                // impl function sits on the most derived type
+                                for cc_d in CCS {
+                                    if cc_d != cc_v {
+                                        out.push(Case { cc_v: *cc_v, recv_v, cc_impl: *cc_impl, recv_impl, depth, placeholders, derived_differs: false, cc_d: *cc_d, impl_level: depth - 1 });
+                                    }
+                                }
+                            }
                         }
                     }
                 }
@@ -37,7 +51,7 @@ fn cases() -> Vec<Case> {
             // a derived level that declares the inherited slot with a different convention
             for depth in 2..=3 {
                 for placeholders in [false, true] {
-                    out.push(Case { cc_v: *cc_v, recv_v, cc_impl: None, recv_impl: Recv::Const, depth, placeholders, derived_differs: true });
+                    out.push(Case { cc_v: *cc_v, recv_v, cc_impl: None, recv_impl: Recv::Const, depth, placeholders, derived_differs: true, cc_d: *cc_v, impl_level: 0 });
                 }
             }
         }
@@ -73,7 +87,7 @@ fn vfuncs(c: &Case, level: usize) -> Vec<FuncS> {
     for l in 1..=level {
         let mut d = FuncS::new(&format!("d{l}"));
         d.recv = Recv::Const;
-        d.cc = c.cc_v.map(String::from);
+        d.cc = c.cc_d.map(String::from);
         if c.placeholders {
             // after the base's trailing placeholder slot
             d.index = Some(2 + 2 * l as i128);
@@ -101,7 +115,7 @@ fn input_of(c: &Case) -> pipe::Input {
     f.cc = c.cc_impl.map(String::from);
     f.address = Some(0x1000);
     f.args = vec![("a".into(), MTy::b("u32"))];
-    items.push(Item::Impl { name: "Base".into(), funcs: vec![f] });
+    items.push(Item::Impl { name: names[c.impl_level].into(), funcs: vec![f] });
     to_input(&[ModuleS::new("m").with(items)])
 }
 
@@ -126,7 +140,7 @@ fn judge(c: &Case, text: &str) -> Option<(String, String)> {
         let mut wants = vec![("v".to_string(), ev.clone()), ("w".to_string(), "thiscall".to_string())];
         for l in 1..=level {
             // the functions added at each level always take &self
-            wants.push((format!("d{l}"), expected(c.cc_v, Recv::Const)));
+            wants.push((format!("d{l}"), expected(c.cc_d, Recv::Const)));
         }
         if c.placeholders {
             wants.push(("_vfunc_1".to_string(), "thiscall".to_string()));
@@ -144,11 +158,11 @@ fn judge(c: &Case, text: &str) -> Option<(String, String)> {
         }
     }
     let ei = expected(c.cc_impl, c.recv_impl);
-    match fi.method("Base", "f") {
-        None => return Some(("wrapper_missing".into(), "Base::f".into())),
+    match fi.method(names[c.impl_level], "f") {
+        None => return Some(("wrapper_missing".into(), format!("{}::f", names[c.impl_level]))),
         Some(f) => {
             if f.abis_in_body != vec![ei.clone()] {
-                return Some(("wrapper_convention".into(), format!("Base::f: expected extern \"{ei}\", body has {:?}", f.abis_in_body)));
+                return Some(("wrapper_convention".into(), format!("{}::f: expected extern \"{ei}\", body has {:?}", names[c.impl_level], f.abis_in_body)));
             }
         }
     }
@@ -158,13 +172,13 @@ fn judge(c: &Case, text: &str) -> Option<(String, String)> {
 /// Inputs for C13: without receiver-less virtual functions (their wrappers cannot name a
 /// vftable to dispatch through; outside the documented fragment).
 pub fn all_inputs() -> Vec<pipe::Input> {
-    cases().iter().filter(|c| c.recv_v != Recv::None).map(input_of).collect()
+    cases().iter().filter(|c| c.recv_v != Recv::None && c.impl_level == 0 && c.cc_d == c.cc_v).map(input_of).collect()
 }
 
 pub fn run(tier: &str, only: Option<&Value>) -> i32 {
     let mut rep = Report::new("C16", tier);
     let all = cases();
-    rep.rule = "E1: convention in {absent, C, cdecl, stdcall, fastcall, thiscall, vectorcall, system, an invalid name} for a virtual function (receiver &self / &mut self) and independently for an address-bound impl function (no receiver / &self / &mut self), through inheritance chains of depth 1..3 that re-declare the slot, with and without placeholder slots (index gap and declared table size); oracle: ABI strings parsed with syn from the unmodified output; accepted outputs compiled unmodified for i686-pc-windows-msvc. distinct = distinct (vfunc convention, receiver, impl convention, receiver, depth, placeholders)".into();
+    rep.rule = "E1: convention in {absent, C, cdecl, stdcall, fastcall, thiscall, vectorcall, system, an invalid name} for a virtual function (receiver &self / &mut self) and independently for an address-bound impl function (no receiver / &self / &mut self), through inheritance chains of depth 1..3 that re-declare the slot, with and without placeholder slots (index gap and declared table size); oracle: ABI strings parsed with syn from the unmodified output; accepted outputs compiled unmodified for i686-pc-windows-msvc. Thorough: the functions added by derived levels carry an independent convention from the same nine, and the impl function sits on the most derived type. distinct = distinct (vfunc convention, receiver, impl convention, receiver, depth, placeholders)".into();
     rep.assumptions = vec!["rustc nightly's acceptance of an ABI string on i686-pc-windows-msvc (feature abi_vectorcall enabled) shows it is a real convention there".into()];
     let only_i = only.map(|l| (l["index"].as_u64().unwrap_or(0) as usize, l["ps"].as_u64().unwrap_or(8) as usize));
     for ps in [4usize, 8] {
@@ -179,7 +193,7 @@ pub fn run(tier: &str, only: Option<&Value>) -> i32 {
             let c = &all[idxs[j]];
             let input = input_of(c);
             let v = pipe::run(&input, ps);
-            let invalid = [c.cc_v, c.cc_impl].iter().any(|cc| cc.is_some_and(|x| !VALID.contains(&x))) || c.derived_differs;
+            let invalid = [c.cc_v, c.cc_impl, if c.depth >= 2 { c.cc_d } else { None }].iter().any(|cc| cc.is_some_and(|x| !VALID.contains(&x))) || c.derived_differs;
             let viol = match &v {
                 pipe::Verdict::Panic(p) => Some(("panic".to_string(), p.clone())),
                 pipe::Verdict::ParseErr(..) => Some(("harness_parse_error".to_string(), v.err_text())),
